@@ -1,9 +1,13 @@
 import RustCcModel.Proofs.CtlSimp
+import RustCcModel.Proofs.CountsReach
+import RustCcModel.Proofs.Reach
 /-! # C04 — Rc equivalence: last-owner drop reclaims at once; `strong_count` is exact
 
-Step-level behaviour of `Cc::clone` / `Cc::drop` on the count (the global statement — the count equals
-the number of pointers that exist — is invariant I1 of DESIGN.md; on every run it is checked on the
-implementation by the harness, which enumerates every `Cc` it holds or stored in a field). -/
+Step-level behaviour of `Cc::clone` / `Cc::drop` on the count, and the global invariant
+**the count of a live box is never below the number of pointers to it that exist** (`count_never_too_low`,
+for every world the machine can reach: any programs, callbacks, injected panics and their unwinding).
+The other half (never above, in panic-free histories) is checked on the implementation by the harness,
+which enumerates every `Cc` it holds or stored in a field. -/
 namespace RustCc.C04
 open World
 
@@ -66,5 +70,40 @@ theorem destroyLast_count (c : Cfg) (w : World) (x : Id) (hrc : (w.heap x).rc = 
     ((destroyLast c w x).heap x).rc = 0 := by
   unfold destroyLast removeFromList
   split <;> split <;> simp [upd, push, hrc]
+
+/-- Number of `Cc` pointers to `x` that exist in world `w`: table entries, stashed clones, pointers
+held by the code of the frames on the stack, and pointer fields (traced, untraced, the cleaner's map,
+captured by a registered action) of every allocated object. -/
+abbrev pointersTo (w : World) (x : Id) : Nat := refs w x
+
+/-- **`strong_count` is never too low**: in every reachable world — after any sequence of operations,
+callbacks, collections, injected panics and unwindings — the count of every box that has not been
+freed is at least the number of pointers to it. (A panic may leak: `≤`, not `=`.) -/
+theorem count_never_too_low (c : Cfg) (nH nW nK : Nat) (w : World) (h : Reachable c nH nW nK w)
+    (x : Id) (hx : (w.heap x).boxLive = true) : pointersTo w x ≤ (w.heap x).rc :=
+  (reachable_counts c nH nW nK w h).le x hx
+
+/-- A freed or never-allocated identity past the allocation frontier has no pointer to it at all. -/
+theorem no_pointer_to_unallocated (c : Cfg) (nH nW nK : Nat) (w : World) (h : Reachable c nH nW nK w)
+    (x : Id) (hx : w.next ≤ x) : pointersTo w x = 0 :=
+  (reachable_counts c nH nW nK w h).fresh x hx
+
+/-- Hence a box whose count is 0 (the guard under which the machine frees) has no pointer to it:
+**a free never leaves a dangling `Cc` behind**. -/
+theorem zero_count_no_pointer (c : Cfg) (nH nW nK : Nat) (w : World) (h : Reachable c nH nW nK w)
+    (x : Id) (hx : (w.heap x).boxLive = true) (h0 : (w.heap x).rc = 0) : pointersTo w x = 0 := by
+  have := count_never_too_low c nH nW nK w h x hx
+  omega
+
+/-- Non-vacuity: after `new` into entry 0 and `clone` into entry 1 the world is reachable, object 0 is
+live, two pointers to it exist and its count is 2. -/
+def exCfg : Cfg := {}
+def exWorld1 : World :=
+  execTop exCfg 50 (World.init exCfg 2 0 0) (.new 0 { ns := 1, nu := 0, nw := 0, cleaner := false, fin := 0, drp := 0 })
+def exWorld : World := execTop exCfg 50 exWorld1 (.clone (.h 0) 1)
+example : (exWorld.heap 0).boxLive = true ∧ pointersTo exWorld 0 = 2 ∧ (exWorld.heap 0).rc = 2 := by decide
+example : Reachable exCfg 2 0 0 exWorld :=
+  reachable_execTop _ _ _ _ _ _ _
+    (reachable_execTop _ _ _ _ _ _ _ .init (by decide) (by decide)) (by decide) (by decide)
 
 end RustCc.C04
